@@ -35,7 +35,7 @@ CLAIMED = {
              "is written only at offsets the cursor already accepted, and the symbolic raw writes of ICMP/ICMPv6 (extension "
              "block and padding) lie inside the layer's trailer region on every cell - found and fixed the ICMP extension "
              "offset for timestamp/address-mask messages; (R4) the driver composes the layers' regions; (R5) no "
-             "throw site other than the cursor's bound checks and 8 tabled, reasoned ones is reachable while serialising. (R6) the caching wrapper PDUCacher<T> copies into the output buffer exactly size() bytes of the container it copies from (never total_sz, which also counts the layers stacked on it). (R1 also requires, for accessor-maintained counts, a dominating test that the count is below the field's maximum before it is incremented; R7: no variable is read after it was handed to std::move.) (R8) the same cursor invariant, shared with C01.R5: it is what makes the output cursor's bound checks meaningful. (R2) also: every cached size counter is at least as wide as the uint32_t header_size() it feeds, or exactly as wide as the wire length field the serialiser fills with it (found and fixed: LLC's 8-bit XID length wrapped after 85 fields and serialize() threw); LLC's information fields are a cache pair.",
+             "throw site other than the cursor's bound checks and 8 tabled, reasoned ones is reachable while serialising. (R6) the caching wrapper PDUCacher<T> copies into the output buffer exactly size() bytes of the container it copies from (never total_sz, which also counts the layers stacked on it). (R1 also requires, for accessor-maintained counts, a dominating test that the count is below the field's maximum before it is incremented; R7: no variable is read after it was handed to std::move.) (R8) the same cursor invariant, shared with C01.R5: it is what makes the output cursor's bound checks meaningful. (R2) also: every cached size counter is at least as wide as the uint32_t header_size() it feeds, or exactly as wide as the wire length field the serialiser fills with it (found and fixed: LLC's 8-bit XID length wrapped after 85 fields and serialize() threw); LLC's information fields are a cache pair. (R2 also: adjust-width - the per-element size that adjusts a cached counter is not squeezed through a cast or a local of fewer bits than the counter needs.)",
         note="NOT decided: LLC's cached lengths (1 undecided instance), arbitrary building-API histories beyond R2, uint32 wrap "
              "of sizes. 'Fewer bytes written than counted' is noted, not a violation (zero gap, no overwrite).",
     ),
@@ -51,7 +51,7 @@ CLAIMED = {
              "every derived from-buffer constructor skips exactly the bytes its base constructors consumed (20 chains) and "
              "the members a constructor chain reads are, in order and width, those write_serialization writes, and a member "
              "read under a condition is written whenever that condition holds (51 classes); (R4) switches on wire-derived selectors on the serialisation path cover every value (found and "
-             "fixed LLC's I-frame format). (R5) the accept set of are_extensions_allowed(), evaluated over all 256 type values, stays within the RFC 4884 message types (ICMP 3/11/12, ICMPv6 1/3), so the derived length byte never overwrites another field; (R6) RadioTap::trailer_size() is non-zero exactly when the parser strips an FCS (FLAGS present and FCS bit), on its full truth table. (R3 also compares, by member name and multiplicity, what the constructor chain reads with what the serialiser writes: nothing read is never written, nothing written is never read, apart from 11 tabled members filled by other means.) (R7) the ICMP/ICMPv6 extension parser never looks for the extension structure below offset 128, where the serialiser puts it; C02.R1 (size balance of every serialiser) is re-run under C03 because an overrunning header corrupts the next layer's bytes. (R8) for every enumerator of a selector whose setter fixes a length member that header_size() counts (LLC: Format -> control_field_length_), write_serialization writes exactly that many selector-dependent bytes - both sides executed per enumerator, so a switch, an if-chain or a missing arm are judged alike. All rules read through named locals, extracted helpers and early-return forms (DESIGN 8.9).",
+             "fixed LLC's I-frame format). (R5) the accept set of are_extensions_allowed(), evaluated over all 256 type values, stays within the RFC 4884 message types (ICMP 3/11/12, ICMPv6 1/3), so the derived length byte never overwrites another field; (R6) RadioTap::trailer_size() is non-zero exactly when the parser strips an FCS (FLAGS present and FCS bit), on its full truth table. (R3 also compares, by member name and multiplicity, what the constructor chain reads with what the serialiser writes: nothing read is never written, nothing written is never read, apart from 11 tabled members filled by other means.) (R7) the ICMP/ICMPv6 extension parser never looks for the extension structure below offset 128, where the serialiser puts it; C02.R1 (size balance of every serialiser) is re-run under C03 because an overrunning header corrupts the next layer's bytes. (R8) for every enumerator of a selector whose setter fixes a length member that header_size() counts (LLC: Format -> control_field_length_), write_serialization writes exactly that many selector-dependent bytes - both sides executed per enumerator, so a switch, an if-chain or a missing arm are judged alike. All rules read through named locals, extracted helpers and early-return forms (DESIGN 8.9). (R3 also: tokens in branches that exclude each other are alternatives; a fixed-size member read in every run is written in every run; a boolean member the serialiser tests is assigned in the parser from the very test under which the members it governs are read.) (R9) early exits of option loops that run up to an end-of-header pointer verify the cursor is at that pointer or skip to it.",
         note="NOT decided: value-dependent losses (ICMP extension recognition by checksum, DHCP END/PAD growth, option "
              "contents and their order beyond the raw option list), byte-for-byte idempotence, variable-length tails after "
              "the first option loop of a constructor.",
@@ -69,7 +69,7 @@ CLAIMED = {
              "searches are first-match from begin() and remove erases exactly the found iterator; (R5) all PDUOption members "
              "use one inline/heap predicate; (R6) IPv6 extension headers announce exactly the bytes written (found and fixed "
              "the 7-mod-8 length defect); (R7) element-parsing loops continue while one element's fixed part fits (17 loops); "
-             "(R8) a serialiser that edits list elements for the wire image restores them from a saved copy. (R9) the offset the 802.11 management subtype parsers skip (management_frame_size()) has the same symbolic size form as Dot11ManagementFrame::header_size() on every cell (fourth address included). (R10) option-backed accessors with scalar, address or flat-record values (32 pairs: DHCP, DHCPv6, TCP, ICMPv6, 802.11 management): E-BITS composes setter and getter through a model of the option list (construct / add / search / data_ptr / data_size) and interprets the library's own swaps and converter templates - the getter returns the stored value bit for bit; string-, vector- and container-valued options are not decided. (R11) DHCP rewrites its option area from options_ whenever there are options (no size-equality cache test); RSNInformation writes in front of each suite list that list's own size(). (R12) the 802.11 Country decoder accepts the single pad octet its encoder adds for an even number of triplets.",
+             "(R8) a serialiser that edits list elements for the wire image restores them from a saved copy. (R9) the offset the 802.11 management subtype parsers skip (management_frame_size()) has the same symbolic size form as Dot11ManagementFrame::header_size() on every cell (fourth address included). (R10) option-backed accessors with scalar, address or flat-record values (32 pairs: DHCP, DHCPv6, TCP, ICMPv6, 802.11 management): E-BITS composes setter and getter through a model of the option list (construct / add / search / data_ptr / data_size) and interprets the library's own swaps and converter templates - the getter returns the stored value bit for bit; string-, vector- and container-valued options are not decided. (R11) DHCP rewrites its option area from options_ whenever there are options (no size-equality cache test); RSNInformation writes in front of each suite list that list's own size(). (R12) the 802.11 Country decoder accepts the single pad octet its encoder adds for an even number of triplets. (C02.R2 adjust-width is re-run here for the option lists.)",
         note="NOT decided: the shadow-model clause over arbitrary edit histories, codecs that use pointer arithmetic or "
              "containers instead of cursors (shape not comparable), variable-length tails, DNS names, ICMPv6 option length "
              "units for payloads the caller did not pad, value ranges.",
@@ -91,7 +91,7 @@ CLAIMED = {
              "serialisers); (R3) tags are looked up for the immediate inner layer and the IPv6 extension chain links header "
              "i-1 to header i for every i >= 1, and a private mirror of a tag field that the serialiser falls back to is updated "
              "by every setter of that field; (R4) Ethernet/802.1Q padding is zero-filled after the payload and header + "
-             "payload + trailer_size() >= 60 for EthernetII on every cell. (R5) UDP: abstract interpretation over {zero, non-zero, unknown} shows the checksum patched into the datagram is never 0 (0 -> 0xffff whatever the parent); (R6) no serialiser-derived field is stored under an ordering comparison that reads its own old value (grow-only / shrink-only updates go stale). (R7) serialisers that store a next-protocol tag do not search the chain with find_pdu/rfind_pdu: the tag describes the immediate child; C12.R2 (every stored child gets its parent link) is re-run here because checksums and the MPLS bottom-of-stack bit need the parent.",
+             "payload + trailer_size() >= 60 for EthernetII on every cell. (R5) UDP: abstract interpretation over {zero, non-zero, unknown} shows the checksum patched into the datagram is never 0 (0 -> 0xffff whatever the parent); (R6) no serialiser-derived field is stored under an ordering comparison that reads its own old value (grow-only / shrink-only updates go stale). (R7) serialisers that store a next-protocol tag do not search the chain with find_pdu/rfind_pdu: the tag describes the immediate child; C12.R2 (every stored child gets its parent link) is re-run here because checksums and the MPLS bottom-of-stack bit need the parent. (R8) the members the children's pseudo-header reads from IP / IPv6 (source and destination address) are neither assigned nor set through their setters inside the parent's write_serialization, which runs after the children's. (R9) ICMP / ICMPv6 with extensions: the RFC 4884 length field times its unit (4 / 8) equals the offset at which trailer_size() starts the extension structure - both functions executed for seven sizes.",
         note="NOT decided: the one's-complement arithmetic and CRC32 themselves, the values of length / offset expressions "
              "(tot_len, doff, payload_length ...), the UDP zero-checksum substitution value, agreement with libpcap filters - "
              "value-level. Tag tables are decided under C03.R2.",
@@ -105,7 +105,7 @@ CLAIMED = {
              "the out-of-order map holds - every insertion, erasure, in-place trim, replacement and move-out of a chunk "
              "is matched by the right counter adjustment on every CFG path, including whether a moved chunk is really "
              "consumed by the callee; (R2) two sequence numbers never meet in <,>,<=,>= outside the RFC1982 helpers "
-             "(necessary for wrap-safety); (R3) the cyclic walk over the sequence-keyed map wraps at every advance. (R4) a flow's expected sequence number is re-seeded from a SYN only while the flow is in its initial state (guard dominance); (R5) legacy follower: of two segments buffered at the same sequence number the longer one is kept and the other freed (finite evaluation of safe_insert over slot-empty x length orderings). (R3 also covers the legacy follower's drain loop in TCPStream::generic_process: every advance of the cyclic iterator is wrap-protected, through erase_iterator's own wrap test.) (R6) in the legacy drain loop a sliced fragment is re-inserted before the iterator is advanced; add/subtract_sequence_numbers are modulo-2^32 on the boundary cells.",
+             "(necessary for wrap-safety); (R3) the cyclic walk over the sequence-keyed map wraps at every advance. (R4) a flow's expected sequence number is re-seeded from a SYN only while the flow is in its initial state (guard dominance); (R5) legacy follower: of two segments buffered at the same sequence number the longer one is kept and the other freed (finite evaluation of safe_insert over slot-empty x length orderings). (R3 also covers the legacy follower's drain loop in TCPStream::generic_process: every advance of the cyclic iterator is wrap-protected, through erase_iterator's own wrap test.) (R6) in the legacy drain loop a sliced fragment is re-inserted before the iterator is advanced; add/subtract_sequence_numbers are modulo-2^32 on the boundary cells. (R7) Internals::seq_compare, executed on 91 boundary pairs, has the sign of the signed 32-bit difference for every distance except exactly 2^31. (R8) Flow::process_packet reaches DataTracker::process_payload on EVERY path when the segment has a TCP layer and a payload and data is not switched off (formula.must_table: no other condition can return first).",
         note="Prefix/exactly-once delivery, overlap resolution and the legacy follower's equivalence are value-level and "
              "NOT decided. Assumes std::vector move leaves the source empty and that users do not mutate the map through "
              "the non-const accessor.",
@@ -119,7 +119,7 @@ CLAIMED = {
              "every path); terminate-once-and-forget (callback => erase, erase only when finished/limits/idle, no iterator "
              "use after erase); limits compared after every packet; routing by destination address AND port; and the "
              "formulas finished <=> RST|RST|(FIN&FIN), create <=> (SYN&!ACK)|(attach&data), terminate <=> chunks>max|bytes>max, "
-             "FIN/RST always reach FIN_SENT/RST_SENT - each checked on its complete truth table. (R7) Flow::process_packet calls update_state() under no other condition than the presence of a TCP layer. The key's operator< / operator== and the constructor's normalisation are EXECUTED over a two-valued domain per member when not written with std::tie (strict weak order whose equivalence is member-wise equality; endpoint pairs kept, smaller endpoint first); reachability of create / erase sites is computed as a function of the role conditions alone (formula.reach_table).",
+             "FIN/RST always reach FIN_SENT/RST_SENT - each checked on its complete truth table. (R7) Flow::process_packet calls update_state() under no other condition than the presence of a TCP layer. The key's operator< / operator== and the constructor's normalisation are EXECUTED over a two-valued domain per member when not written with std::tie (strict weak order whose equivalence is member-wise equality; endpoint pairs kept, smaller endpoint first); reachability of create / erase sites is computed as a function of the role conditions alone (formula.reach_table). (R8) no normal path from the stream look-up to the end of StreamFollower::process_packet avoids the keep-alive test (or a member that makes it). (R9) the IPv4 and IPv6 branches of Stream::extract_client_flow / extract_server_flow build their Flow from the same accessors.",
         note="NOT decided: equality of the callback trace with a reference connection table under arbitrary interleavings; "
              "reassembly per direction is C06. User callbacks are assumed not to re-enter the follower.",
     ),
@@ -132,7 +132,7 @@ CLAIMED = {
              "and the non-null payload test; is_complete() == last-seen AND counts-equal AND first-offset-0 on all 8 rows; "
              "allocate_pdu rejects gaps), what the reassembled packet is made of (first fragment's header, payload "
              "installed, offset/flags cleared, stream forgotten), unfragmented packets and incomplete streams untouched, "
-             "key = (id, src, dst), insertion/accounting/ordered-search/duplicate-test pairing. (R3 ext.) make_address_pair returns an ordered pair built from both addresses (no lossy digest); (R5) every payload layer the IPv4 parser builds (protocol dispatch, allocator registry, RawPDU in both the fragmented and unfragmented arms) receives the size clamped to the header's total length on every path. (R6) after the contiguity check allocate_pdu() never returns null: pdu_from_flag keeps its RawPDU fallback (or an explicit fallback dominates the return), so datagrams of protocols libtins has no class for are still delivered. (R7) add_fragment returns before the insertion only for a duplicate offset; IP::is_fragmented(), as a bit function of the header (E-BITS), is true exactly when the more-fragments bit or one of the 13 offset bits is set.",
+             "key = (id, src, dst), insertion/accounting/ordered-search/duplicate-test pairing. (R3 ext.) make_address_pair returns an ordered pair built from both addresses (no lossy digest); (R5) every payload layer the IPv4 parser builds (protocol dispatch, allocator registry, RawPDU in both the fragmented and unfragmented arms) receives the size clamped to the header's total length on every path. (R6) after the contiguity check allocate_pdu() never returns null: pdu_from_flag keeps its RawPDU fallback (or an explicit fallback dominates the return), so datagrams of protocols libtins has no class for are still delivered. (R7) add_fragment returns before the insertion only for a duplicate offset; IP::is_fragmented(), as a bit function of the header (E-BITS), is true exactly when the more-fragments bit or one of the 13 offset bits is set. (R9) a member of IPv4Reassembler that points at an element of streams_ (none on the pinned tree) is reset at every erase / clear of the table.",
         note="NOT decided: status sequences under arbitrary interleavings and duplication, byte identity of the "
              "reassembled payload, overlapping fragments.",
     ),
@@ -147,7 +147,7 @@ CLAIMED = {
              "src/crypto.cpp (payload vectors, PTK, scratch blocks, OpenSSL block/digest sizes); (R3) WPA2 keys are "
              "looked up by source pair then destination pair; (R4) the step table of RSNHandshakeCapturer::do_insert: a "
              "message is appended iff it is the next expected one and a retransmission of the last stored message leaves "
-             "the partial handshake untouched. Two genuine memory-safety defects found here were repaired with fix: commits. (R5) session keys derived from a newly captured handshake, or supplied by the user, overwrite the entry for the same address pair (map subscript assignment; insert()/emplace() keep the stale key). (R6) WEP: every registration of a password keeps key_buffer_ at least 3 + the longest key (grow-only resize through max() or a guarded resize), since decrypt() copies IV + key unchecked; (R7) a completed handshake taken from the capturer is cleared on every path afterwards (directly or through a callee that always clears). (R8) find_ap, extract_addr_pair, extract_addr_pair_dst and the WEP look-up select BSSID / source / destination among addr1-3 as the IEEE 802.11 To-DS/From-DS table prescribes, for the three 3-address combinations. (R9) the capturer's table of partial handshakes is modified per station only (erase(key)); a clear() outside the user-requested reset is a violation. (R10) every 16-bit word the TKIP key mixing (RC4Key::from_packet) builds from two octets of one array has the least significant octet at the lower offset (key, transmitter address), and the three words taken from the TKIP header are IV16 = (octet 0, octet 2), Lo16(IV32) = (octet 5, octet 4), Hi16(IV32) = (octet 7, octet 6) (found and fixed: IV32 was loaded with its octets swapped, so frames with TSC >= 65536 were never decrypted).",
+             "the partial handshake untouched. Two genuine memory-safety defects found here were repaired with fix: commits. (R5) session keys derived from a newly captured handshake, or supplied by the user, overwrite the entry for the same address pair (map subscript assignment; insert()/emplace() keep the stale key). (R6) WEP: every registration of a password keeps key_buffer_ at least 3 + the longest key (grow-only resize through max() or a guarded resize), since decrypt() copies IV + key unchecked; (R7) a completed handshake taken from the capturer is cleared on every path afterwards (directly or through a callee that always clears). (R8) find_ap, extract_addr_pair, extract_addr_pair_dst and the WEP look-up select BSSID / source / destination among addr1-3 as the IEEE 802.11 To-DS/From-DS table prescribes, for the three 3-address combinations. (R9) the capturer's table of partial handshakes is modified per station only (erase(key)); a clear() outside the user-requested reset is a violation. (R10) every 16-bit word the TKIP key mixing (RC4Key::from_packet) builds from two octets of one array has the least significant octet at the lower offset (key, transmitter address), and the three words taken from the TKIP header are IV16 = (octet 0, octet 2), Lo16(IV32) = (octet 5, octet 4), Hi16(IV32) = (octet 7, octet 6) (found and fixed: IV32 was loaded with its octets swapped, so frames with TSC >= 65536 were never decrypted). (R10 also: the address mixed into TKIP phase 1 is addr2(), the transmitter.) (R11) every key under which WPA2Decrypter stores or looks up session keys is made by make_addr_pair (directly or through extract_addr_pair*).",
         note="NOT decided: cipher correctness, PTK derivation, handshake orderings (seeded changes of that kind are not "
              "detected). One CCMP per-block offset depends on division/modulo and is listed as undecided, not proven.",
     ),
@@ -163,7 +163,7 @@ CLAIMED = {
              "exactly the later sections are shifted, by exactly the bytes inserted; (R4) each getter reads its own "
              "section; (R5) the record walker keeps cursor and remaining length in lock-step. Three genuine defects were "
              "found: two repaired (fix: commits), one recorded as known finding (update_records' unbounded walk on "
-             "hostile record data). (R6) every (section index, record count) pair handed to the pointer-rewriting walker names the same section; (R7) convert_records: a char buffer later read as a C string is written only by the text producers (compose_name, address formatters); message bytes go into a std::string with explicit length. (R8) a decoded compression pointer (message offset) meets a records-relative offset only after the 12-byte header was accounted for on one side (both decoders: compose_name, update_dname). (R8 also evaluates the relocation guard around the boundary: a pointer is re-encoded exactly when its target is at or behind the insertion point.) (R9) record walkers keep no scalar/string state across iterations unless it is reassigned on every path of the iteration before being read. (R10) skip_to_dname_end classifies all 256 first-octet values as end / 2-octet pointer / label / malformed; (R11) update_records relocates record data for exactly the types contains_dname() names.",
+             "hostile record data). (R6) every (section index, record count) pair handed to the pointer-rewriting walker names the same section; (R7) convert_records: a char buffer later read as a C string is written only by the text producers (compose_name, address formatters); message bytes go into a std::string with explicit length. (R8) a decoded compression pointer (message offset) meets a records-relative offset only after the 12-byte header was accounted for on one side (both decoders: compose_name, update_dname). (R8 also evaluates the relocation guard around the boundary: a pointer is re-encoded exactly when its target is at or behind the insertion point.) (R9) record walkers keep no scalar/string state across iterations unless it is reassigned on every path of the iteration before being read. (R10) skip_to_dname_end classifies all 256 first-octet values as end / 2-octet pointer / label / malformed; (R11) update_records relocates record data for exactly the types contains_dname() names. (R3 also: in add_query / add_record every update_records call precedes the insertion that moves the record bytes.)",
         note="NOT decided: pointer-rewriting arithmetic, name length limits (255 octets), typed record data, "
              "re-parse equality. The add_record family reaches the indices through pointers-to-member, outside E-BOUNDS' "
              "language: its invariant obligations are carried by R3's shape rules, not proved.",
@@ -195,7 +195,7 @@ CLAIMED = {
              "source without layers, move leaves the source null; (R2) every store of a child into inner_pdu_ is followed "
              "on all paths by parent_pdu(this), release clears the parent; (R3) clone() of every instantiable concrete layer "
              "class returns new K(*this); (R4) user-declared copy members forward to the PDU base. Two genuine defects "
-             "found this way were repaired with fix: commits (see known_findings.json 'fixed'). (R5) outside constructors an owning pointer member is overwritten only after the old target was deleted, saved or handed over on that path; (R6) a layer pointer obtained through the non-owning inner_pdu() getter is never deleted on a path on which the parent has not released it (expected count 0; fixture controls). (R7) a member container whose elements the destructor deletes (found from the destructor: TCPStream's fragment maps) is assigned / cleared outside constructors only after its elements were freed on that path. (R7 also covers element slots `T*& s = cont[k]`: overwritten only when known null or after delete.) (R8) PDUOption: typestate over (size class, heap ownership) through every constructor, assignment operator and the destructor - `real_size_ > small_buffer_size` holds exactly when payload_ owns a heap block at every exit, no delete[] of inline bytes, no pointer overwritten while owned. (R9) PDU::inner_pdu(const PDU&) uses its argument only before the current child chain is released; PDU copy/move members do not take over the source's parent link. (R10) assignment operators of owning classes do their work on the not-self side of a self test; release_*() leaves the owning member null.",
+             "found this way were repaired with fix: commits (see known_findings.json 'fixed'). (R5) outside constructors an owning pointer member is overwritten only after the old target was deleted, saved or handed over on that path; (R6) a layer pointer obtained through the non-owning inner_pdu() getter is never deleted on a path on which the parent has not released it (expected count 0; fixture controls). (R7) a member container whose elements the destructor deletes (found from the destructor: TCPStream's fragment maps) is assigned / cleared outside constructors only after its elements were freed on that path. (R7 also covers element slots `T*& s = cont[k]`: overwritten only when known null or after delete.) (R8) PDUOption: typestate over (size class, heap ownership) through every constructor, assignment operator and the destructor - `real_size_ > small_buffer_size` holds exactly when payload_ owns a heap block at every exit, no delete[] of inline bytes, no pointer overwritten while owned. (R9) PDU::inner_pdu(const PDU&) uses its argument only before the current child chain is released; PDU copy/move members do not take over the source's parent link. (R10) assignment operators of owning classes do their work on the not-self side of a self test; release_*() leaves the owning member null. (The PDUCacher instantiations are produced by a call of clone(), so a changed return type is judged, not a build failure of the synthetic unit.)",
         note="Deep equality of field values of copies and 'freed exactly once' over arbitrary programs are not decided; "
              "TCPStream's fragment maps (legacy API) are outside R1's structural owner detection.",
     ),
@@ -207,7 +207,7 @@ CLAIMED = {
         text="Decides the whole statement: for every concrete PDU class K (incl. PDUCacher<K>, instantiated in a "
              "synthetic TU) and every flagged class T, find_pdu<T>/tins_cast<T> can succeed on a K only if T is K "
              "or a base of K, and a search by K's own class succeeds. Finite quantifier, enumerated completely "
-             "(~23k pairs). The PDUCacher flag-sharing defect is a recorded known finding. pdu_type() bodies are read as value SETS: a conditional whose condition reads object state contributes both arms, so a type flag that depends on mutable packet data is checked against every class it can claim to be. The helper templates themselves are checked on every instantiation the library makes (rule `helpers`): find_pdu / tins_cast return null or a static_cast of the very object whose matches_flag(type) / pdu_flag == pdu_type() test dominates the cast; the search cursor only follows inner_pdu().",
+             "(~23k pairs). The PDUCacher flag-sharing defect is a recorded known finding. pdu_type() bodies are read as value SETS: a conditional whose condition reads object state contributes both arms, so a type flag that depends on mutable packet data is checked against every class it can claim to be. The helper templates themselves are checked on every instantiation the library makes (rule `helpers`): find_pdu / tins_cast return null or a static_cast of the very object whose matches_flag(type) / pdu_flag == pdu_type() test dominates the cast; the search cursor only follows inner_pdu(). (A matches_flag body that reads object state - type(), a field - is evaluated for every value the body compares that state with: A(K) is the set of flags accepted in SOME state.)",
         note="Trusted: clang 14 front end, tools/tinsfacts.cc, the five-production grammar of matches_flag bodies "
              "(anything outside it is exit 2, never a pass). User-defined PDU subclasses are outside the quantifier; "
              "find_pdu<T>(type) assumed called with its default argument.",
@@ -239,7 +239,7 @@ CLAIMED = {
              "the raw-IP handler); "
              "(R4) every handler marks the frame processed on all paths, "
              "next_packet loops only while no packet was produced and the handler ran, a negative pcap result yields a null "
-             "packet. (R5) every pcap_pkthdr libtins hands to pcap_dump / pcap_offline_filter has caplen and len (and ts for the writer) assigned from the frame on every path to the call; (R6) every Packet constructor / assignment operator that receives a timestamp or another packet object stores that timestamp in ts_ (copy, move, RefPacket, PtrPacket). (R5 also bounds caplen by the size() of the byte container handed to libpcap; R6 also requires a null test before dereferencing the source packet's layer pointer in the copy members.) (R7) in sniff_loop (instantiated in a synthetic TU) the try block that swallows the callback's malformed_packet / pdu_not_found lies inside the packet loop. (R8) SnifferIterator: fetches on construction and on both increments, turns into the end iterator when next_packet() yields none, compares by sniffer pointer, != negates ==.",
+             "packet. (R5) every pcap_pkthdr libtins hands to pcap_dump / pcap_offline_filter has caplen and len (and ts for the writer) assigned from the frame on every path to the call; (R6) every Packet constructor / assignment operator that receives a timestamp or another packet object stores that timestamp in ts_ (copy, move, RefPacket, PtrPacket). (R5 also bounds caplen by the size() of the byte container handed to libpcap; R6 also requires a null test before dereferencing the source packet's layer pointer in the copy members.) (R7) in sniff_loop (instantiated in a synthetic TU) the try block that swallows the callback's malformed_packet / pdu_not_found lies inside the packet loop. (R8) SnifferIterator: fetches on construction and on both increments, turns into the end iterator when next_packet() yields none, compares by sniffer pointer, != negates ==. (R9) every PacketWriter constructor writes handle_ and dumper_ before anything reads them, following the member it delegates to (move constructor -> move assignment). (R1/R2 also read a constant {link type, &handler} table searched by a loop.)",
         note="Byte/timestamp round-trip through PacketWriter/FileSniffer and agreement with libpcap's BPF matcher are "
              "runtime-value clauses and NOT decided. libpcap is assumed to call the handler at most once per pcap_loop(...,1,...).",
     ),
@@ -295,7 +295,7 @@ CLAIMED = {
              "(R6) iteration: increment_buffer / decrement_buffer (IPv6, hardware addresses) are the big-endian successor / predecessor "
              "for every carry length 0..N and return true exactly on wrap-around (abstract interpretation of the carry chain over "
              "{pivot, not pivot, any} bytes of the real length); the scalar IPv4 increment's flag means wrap-around too; the range "
-             "iterator takes its flag from increment(address_) in both the end sentinel (body or member initialiser after address_) and operator++, compares address and flag, and its operator!= is the exact negation of operator== (delegating or written out: truth table); the IPv4 successor and its wrap flag are EXECUTED on 13 boundary values when not written `++v == 0`. (R7) IPv4Address::from_prefix_length evaluated for all 33 prefix lengths and IPv6Address::from_prefix_length / operator/(HWAddress<6>, int) interpreted byte-wise for all 129 / 49: exact masks, no out-of-range shift (undefined behaviour reported as such); (R8) inet_ntop is given a buffer of at least INET6_ADDRSTRLEN / INET_ADDRSTRLEN bytes and that buffer's size. (R9) the hardware-address printer maps each of the 16 nibble values to its hexadecimal digit, high nibble first. (R4 also rejects scanf/strtoul-style parsing in the address text constructors.) (R10) the byte loops of HWAddress<6> (mask operators, broadcast fill) visit exactly positions 0..5. (R11) the post-increment of the range iterators steps through the pre-increment of the same object, never through itself (an unconditional self-call never returns), and returns the copy taken before (found and fixed: `it++` recursed until the stack was exhausted). Text conversion rules execute the code for all 256 byte values, so lookup tables, helpers and arithmetic are judged alike.",
+             "iterator takes its flag from increment(address_) in both the end sentinel (body or member initialiser after address_) and operator++, compares address and flag, and its operator!= is the exact negation of operator== (delegating or written out: truth table); the IPv4 successor and its wrap flag are EXECUTED on 13 boundary values when not written `++v == 0`. (R7) IPv4Address::from_prefix_length evaluated for all 33 prefix lengths and IPv6Address::from_prefix_length / operator/(HWAddress<6>, int) interpreted byte-wise for all 129 / 49: exact masks, no out-of-range shift (undefined behaviour reported as such); (R8) inet_ntop is given a buffer of at least INET6_ADDRSTRLEN / INET_ADDRSTRLEN bytes and that buffer's size. (R9) the hardware-address printer maps each of the 16 nibble values to its hexadecimal digit, high nibble first. (R4 also rejects scanf/strtoul-style parsing in the address text constructors.) (R10) the byte loops of HWAddress<6> (mask operators, broadcast fill) visit exactly positions 0..5. (R11) the post-increment of the range iterators steps through the pre-increment of the same object, never through itself (an unconditional self-call never returns), and returns the copy taken before (found and fixed: `it++` recursed until the stack was exhausted). Text conversion rules execute the code for all 256 byte values, so lookup tables, helpers and arithmetic are judged alike. (R3 also: a raw copy out of the address in a hash has the address's own size as its length.)",
         note="NOT decided: IPv4/IPv6 text round trip (delegated to inet_pton/ntop), agreement of < with numeric byte order "
              "(IPv4 host-order storage), prefix-length masks at /0,/31,/32,/127,/128, group structure of the hardware "
              "grammar, the order of visited addresses as a whole (the successor function and the end protocol are decided, R6) - value-level.",
@@ -309,7 +309,7 @@ CLAIMED = {
              "neither ends below the cumulative ACK nor is SACKed => not acknowledged; otherwise continue; true only after "
              "the last piece (complete table: values are only touched through seq_compare's sign and set membership); (R2) "
              "every ACK advance in process_packet is preceded by cleanup_sacked_intervals(old, new); (R3) sequence numbers "
-             "are ordered only through seq_compare; (R4) no well-formed SACK block above the ACK is skipped. (R5) a SACKed piece that starts >= 1 above the cumulative ACK is recorded, never folded into the ACK (finite evaluation of the branch condition with the real seq_compare body over ACK values around 0, 2^31 and the wrap and distances 1,2,3,1460,2^31-1); (R6) process_sack() is reachable both through and around the ACK advance. (R7) the AckTracker a Flow creates is told to read SACK blocks (use_sack true / defaulted), never gated on the flow's own SACK-permitted flag. (R8) the SACK piece loop is guarded only by index-in-range, left<right and ends-above-ACK; Flow::process_packet feeds the tracker under no condition but the TCP layer's presence and ack_tracking.",
+             "are ordered only through seq_compare; (R4) no well-formed SACK block above the ACK is skipped. (R5) a SACKed piece that starts >= 1 above the cumulative ACK is recorded, never folded into the ACK (finite evaluation of the branch condition with the real seq_compare body over ACK values around 0, 2^31 and the wrap and distances 1,2,3,1460,2^31-1); (R6) process_sack() is reachable both through and around the ACK advance. (R7) the AckTracker a Flow creates is told to read SACK blocks (use_sack true / defaulted), never gated on the flow's own SACK-permitted flag. (R8) the SACK piece loop is guarded only by index-in-range, left<right and ends-above-ACK; Flow::process_packet feeds the tracker under no condition but the TCP layer's presence and ack_tracking. (R8 also: the SACK block index is bounded by the option's own size, not by a smaller quantity; no member of Flow that REPLACES ack_tracker_ runs after the tracker was fed with the same segment. R2: the cleanup before the cumulative ACK moves is recognised by its effect - every piece of AckedRange(old, new) erased - in a member or in place.)",
         note="NOT decided: the interval arithmetic over the wrapping 32-bit space, interval merging/splitting, agreement "
              "with a set-of-acknowledged-bytes model over histories - these are value-level.",
     ),
